@@ -33,7 +33,7 @@ def expected : List (String × List (String × Int)) := [
   ("m_ctx_register", [("str_not_empty(ctx_name)", -22), ("do pthread_once(&key_once, make_key)", 7777), ("!pthread_getspecific(key)", -17), ("return ctx_new", 7778)]),
   ("m_ctx_deregister", [getCtx, ctxAssert, ("(c->state == M_CTX_IDLE)", -22), ("!c->destroying", -22)]),
   ("m_ctx_set_logger", [getCtx, ctxAssert, ("logger", -22)]),
-  ("m_ctx_loop", [getCtx, ctxAssert, ("return m_ctx_loop_events", 7778)]),
+  ("m_ctx_loop", [getCtx, ctxAssert]),
   ("m_ctx_quit", [getCtx, ctxAssert, ("(c->state == M_CTX_LOOPING)", -22), ("return loop_quit", 7778)]),
   ("m_ctx_fd", [getCtx, ctxAssert, ("return dup", 7778)]),
   ("m_ctx_dispatch", [getCtx, ctxAssert]),
